@@ -6,6 +6,7 @@ numbers: the caller (generator, sweep, minimiser or replay) supplies every
 step, so the same step list always gives the same execution.
 """
 import logging
+import warnings
 import copy
 import hashlib
 import itertools
@@ -197,11 +198,37 @@ def _cif_digest(c):
     return digest(norm(c.properties))
 
 
+class _Strict:
+    """Process-wide settings of the *caller* that turn conditions the library
+    normally shrugs off into exceptions raised in the middle of a call:
+    warnings as errors (`-W error`) or numpy floating-point errors raised
+    (`np.seterr(all="raise")`). In force during library calls only."""
+
+    def __init__(self, mode):
+        self.mode = mode
+        self.cm = None
+
+    def __enter__(self):
+        if self.mode == "warnings":
+            self.cm = warnings.catch_warnings()
+            self.cm.__enter__()
+            warnings.simplefilter("error")
+        elif self.mode == "fperr":
+            self.cm = np.errstate(all="raise")
+            self.cm.__enter__()
+
+    def __exit__(self, *exc):
+        if self.cm is not None:
+            self.cm.__exit__(*exc)
+        return False
+
+
 def outcome(fn, c, A, ctx, reader=None):
     try:
-        value = fn(c, A, ctx)
-        if reader is not None:
-            value = reader(value)
+        with _Strict(A.get("strict")):
+            value = fn(c, A, ctx)
+            if reader is not None:
+                value = reader(value)
     except O.Unsupported:
         raise
     except Exception as e:  # noqa: BLE001 - a raised call is a legal outcome
@@ -309,6 +336,9 @@ class Sim:
         self.stats = Counter()
         if self.log_sink is not None:
             self.stats["runs_with_library_debug_logging_on"] += 1
+        if args.get("strict"):
+            self.stats["env:" + args["strict"]] += 1
+        self.stats["args:" + str(args.get("arg_style") or "plain")] += 1
         self.transitions = set()
         self.nontrivial_checks = 0
         self.armed = [False]  # handle has seen a successful state change with memo/cif_data present
